@@ -1213,3 +1213,72 @@ Proof.
   - destruct em, tnl; vm_compute; intro H; discriminate H.
   - destruct em, tnl; vm_compute; reflexivity.
 Qed.
+
+(* ================================================================== WriteColumnarRecord -> Parquet *)
+
+Lemma cres_all_ok {A B} (f : A -> cres B) l : forall out,
+  cres_all (map f l) = COk out -> Forall2 (fun x y => f x = COk y) l out.
+Proof.
+  induction l as [|x r IH]; cbn [map cres_all]; intros out H.
+  - inversion H. constructor.
+  - destruct (f x) eqn:Ex; destruct (cres_all (map f r)) eqn:Er; try discriminate.
+    inversion H; subst. constructor; [exact Ex|apply IH; reflexivity].
+Qed.
+
+Lemma cres_all_reject {A B} (f : A -> cres B) l x : In x l -> f x = CReject -> cres_all (map f l) = CReject.
+Proof.
+  induction l as [|y r IH]; [intros []|]. cbn [map cres_all In]. intros [->|Hin] Hx.
+  - rewrite Hx. reflexivity.
+  - rewrite (IH Hin Hx). destruct (f y); reflexivity.
+Qed.
+
+Lemma Forall2_weaken {A B} (P Q : A -> B -> Prop) l l' :
+  (forall a b, P a b -> Q a b) -> Forall2 P l l' -> Forall2 Q l l'.
+Proof. intros H. induction 1; constructor; auto. Qed.
+
+Lemma conv_cell_exact k c y : conv_cell k c = COk y -> cell_exact c y.
+Proof.
+  unfold conv_cell, to_int64. destruct c as [v|]; [|intros H; inversion H; exact I].
+  destruct k, v; try discriminate; intros H;
+    try (inversion H; subst; cbn; auto; fail).
+  destruct (z <=? max_i64)%Z eqn:E; [|discriminate]. inversion H; subst. cbn. split; [reflexivity|lia].
+Qed.
+
+Lemma conv_time_cell_exact c y : conv_time_cell c = COk y -> cell_exact c y.
+Proof.
+  unfold conv_time_cell, to_int64. destruct c as [v|]; [|discriminate].
+  destruct v; try discriminate; intros H; try (inversion H; subst; cbn; auto; fail).
+  destruct (z <=? max_i64)%Z eqn:E; [|discriminate]. inversion H; subst. cbn. split; [reflexivity|lia].
+Qed.
+
+Lemma first_non_nil_none cells : first_non_nil cells = None -> Forall (fun c => c = None) cells.
+Proof.
+  induction cells as [|[v|] r IH]; cbn [first_non_nil]; intros H; [constructor|discriminate|].
+  constructor; [reflexivity|apply IH; exact H].
+Qed.
+
+Lemma store_column_exact name cells out : store_column name cells = COk out -> Forall2 cell_exact cells out.
+Proof.
+  unfold store_column. destruct (bytes_eqb name s_time).
+  - destruct (first_non_nil cells) as [v|]; [|discriminate].
+    assert (G : cres_all (map conv_time_cell cells) = COk out -> Forall2 cell_exact cells out).
+    { intros H. apply cres_all_ok in H. eapply Forall2_weaken; [|exact H]. apply conv_time_cell_exact. }
+    destruct v; try exact G; discriminate.
+  - destruct (first_non_nil cells) as [v|] eqn:E.
+    + intros H. apply cres_all_ok in H. eapply Forall2_weaken; [|exact H]. intros a b. apply conv_cell_exact.
+    + intros H. inversion H; subst. apply first_non_nil_none in E. clear H.
+      induction E as [|c r Hc Hr IH]; cbn [map]; constructor; [subst; exact I|exact IH].
+Qed.
+
+Lemma store_column_uint_overflow name cells z :
+  bytes_eqb name s_time = false ->
+  (forall c, In c cells -> exists u, c = Some (VUint u)) ->
+  In (Some (VUint z)) cells -> (max_i64 < z)%Z ->
+  store_column name cells = CReject.
+Proof.
+  intros Hn Hall Hin Hz. unfold store_column. rewrite Hn.
+  destruct cells as [|c0 r]; [destruct Hin|].
+  destruct (Hall c0 (or_introl eq_refl)) as [u0 ->]. cbn [first_non_nil kind_of].
+  apply (cres_all_reject _ _ (Some (VUint z))); [exact Hin|].
+  cbn. assert (E : (z <=? max_i64)%Z = false) by lia. rewrite E. reflexivity.
+Qed.
